@@ -48,5 +48,10 @@ for dir in "$VERIF"/mutants/*/ "$VERIF"/seeded/*/; do
   done
   case "$verdict" in caught*) caught=$((caught+1));; *) missed=$((missed+1));; esac
   printf "%-34s %-5s %-9s %-8s %s\n" "$id" "$prop" "$suite" "$verdict" "$rp"
+  # keep the latest verdict per id (committed: DESIGN.md section 9 quotes this file)
+  R="$VERIF/sensitivity_results.tsv"; touch "$R"
+  grep -v "^$id	" "$R" > "$W/results.new" || true
+  printf "%s\t%s\t%s\t%s\t%s\t%s\t%s\n" "$id" "$prop" "$suite" "$verdict" "$rp" "$TIER" "$(git -C "$VERIF" rev-parse --short HEAD 2>/dev/null)" >> "$W/results.new"
+  sort "$W/results.new" > "$R"
 done
 echo "mutants: caught=$caught missed=$missed broken=$broken"
